@@ -171,6 +171,9 @@ def run(ctx, rep):
         rep.check(want in base_must, 'R3', 'layer-writer/unconditional/' + scope, wwhere,
                   '%s is rewritten on every successful write (also when the new delta is empty)' % '/'.join(want),
                   'the %s directory is not rewritten on every path: stale files of an earlier environment survive' % '/'.join(want))
+    rep.check(any(len(cs) == 2 and cs[0] == 'env.launch' and fa for cs, fa in md), 'R3', 'layer-writer/unconditional/process[*]', wwhere,
+              'every process scope is written on every successful write',
+              'process scopes can be skipped (an early return / break inside the loop over self.process): which of them survive a rewrite depends on the map\'s iteration order')
     order = [cs for cs, fa in md]
     if ('env.launch',) in order:
         procs = [i for i, (cs, fa) in enumerate(md) if len(cs) == 2 and cs[0] == 'env.launch']
